@@ -308,6 +308,17 @@ func countPrefix(xs []string, p string) int {
 func checkJSONNumber(r *Run, prog *Program, a *Anchors, pfx string) {
 	fn := a.MatchEval
 	ps := NewPathSim(prog)
+	ps.Inline = func(c *ssa.Function) bool {
+		if !prog.InModule(c) || c == a.GetValue || c == a.EqTable || c == a.CoerceTab || c == a.GetOpts {
+			return false
+		}
+		for _, m := range a.Matchers {
+			if m == c {
+				return false
+			}
+		}
+		return true
+	}
 	ps.Model = func(ev *Event) *Sym {
 		if ev.Callee == a.GetValue {
 			return &Sym{K: sTuple, Kids: []*Sym{{K: sOpaque, V: ev.Instr.Value(), Str: "value"}, {K: sConst, C: constant.MakeBool(true)}, nilSym()}}
